@@ -25,7 +25,7 @@ MODES = ['both-empty', 'left-empty', 'right-empty', 'left-ends-first-after-misma
          'both-end-on-match', 'left-ends-first-after-match', 'right-ends-first-after-match']
 OPS = ['join', 'leftjoin', 'rightjoin', 'outerjoin', 'lookupjoin', 'antijoin']
 REQUIRED = ['mode:' + m for m in MODES] + ['op:' + o for o in OPS] + ['op:crossjoin',
-            'none-key-left+right-empty', 'none-key-right+left-empty', 'ragged-input', 'natural-key', 'lkey!=rkey', 'compound-key', 'presorted']
+            'none-key-left+right-empty', 'none-key-right+left-empty', 'ragged-input', 'natural-key', 'lkey!=rkey', 'compound-key', 'presorted', 'presorted-ragged']
 
 
 def required(tier):
@@ -201,8 +201,16 @@ def judge(case, ctx):
     if case['presorted']:
         ctx.seen('presorted')
         kw['presorted'] = True
-        a = [lsq[0]] + sorted(lsq[1], key=lambda r: util.model_key(oracles.keytuple(r, lk)))
-        b = [rsq[0]] + sorted(rsq[1], key=lambda r: util.model_key(oracles.keytuple(r, rk)))
+        # sorted by the squared-up key; rows stay ragged wherever their key cells exist (the join squares them up itself)
+        def presort(tbl, sq, kidx):
+            raw = [tuple(r) for r in tbl[1:]]
+            pairs = sorted(zip(sq[1], raw), key=lambda p: util.model_key(oracles.keytuple(p[0], kidx)))
+            keep_raw = op != 'antijoin'
+            return [sq[0]] + [(r if (keep_raw and all(i < len(r) for i in kidx) and len(r) <= len(sq[0])) else s_) for s_, r in pairs]
+        a = presort(left, lsq, lk)
+        b = presort(right, rsq, rk)
+        if any(len(r) != len(a[0]) for r in a[1:]) or any(len(r) != len(b[0]) for r in b[1:]):
+            ctx.seen('presorted-ragged')
     fn = getattr(petl, op)
     got = util.attempt_rows(lambda: fn(a, b, **kw))
     if isinstance(got, util.Raised):
